@@ -103,7 +103,7 @@ CHECKS = {
                   "and random values, the loss-free ping-pong-peng exchange of two mutually trusting distinct nodes ends with both completed, each "
                   "holding the other's payload, the same cipher, the same key under key id 0 and opposite nonce halves. For every sequence of "
                   "verified messages fed to an attempt (= every loss/duplication/reordering): at most one completion, completion closes the "
-                  "attempt, roles, no unwrap panic. PARTIAL: agreement for every interleaving and the liveness clause are decided by the executed "
+                  "attempt, roles, no unwrap panic; an object waiting for the peng gives up after 120 s whatever messages of other stages arrive (GiveUpProofs.v). PARTIAL: agreement for every interleaving and the liveness clause are decided by the executed "
                   "correspondence: all delivery schedules to depth 5 (quick) / 7 (thorough), random and retry-horizon schedules on real "
                   "InitState/PeerCrypto pairs, node-level total / one-way loss followed by reliable delivery, with cross-open, roles, payload, "
                   "at-most-once and reconnection oracles.",
